@@ -22,6 +22,8 @@ type loopCase struct {
 	truth     []viol
 	prepErr   error
 	styleSeed uint64
+	history   string // what happens between creation and inspection (engine.go: histories)
+	internal  []string
 	cause     map[string]string
 	noAttr    bool
 }
@@ -46,7 +48,25 @@ func (c *loopCase) run() {
 			return
 		}
 	}
+	// history: export before, let the engine do its bookkeeping, export after
+	var hclBefore []byte
+	var sqlBefore string
+	if c.history != "" && c.history != "fresh" {
+		if s0, drv, err := inspectDB(db0); err == nil {
+			hclBefore, _ = hclExport(s0)
+			s0b, _, _ := inspectDB(db0)
+			sqlBefore, _, _ = sqlExport(drv, s0b, "")
+		}
+		c.internal = applyHistory(db0, c.history)
+	}
 	loopOnDB(db0, c.res)
+	if hclBefore != nil && c.res.inspectErr == nil {
+		if c.res.hclMarshalErr == nil && string(hclBefore) != string(c.res.hcl) {
+			c.res.historyMsg = "HCL export differs before / after " + c.history
+		} else if c.res.sqlPlanErr == nil && sqlBefore != "" && sqlBefore != c.res.sql {
+			c.res.historyMsg = "SQL export differs before / after " + c.history
+		}
+	}
 	if c.res.inspectErr == nil && c.ast != nil {
 		var s0 *schema.Schema
 		s0, _, err := inspectDB(db0)
@@ -99,6 +119,10 @@ func runCases(w *out.W, cases []*loopCase) {
 			}
 		}
 		w.Count("how:" + c.how)
+		w.Count("history:" + c.history)
+		for _, n := range c.internal {
+			w.Count("engine-table:" + n)
+		}
 		if c.res.createErr != nil {
 			w.Count("engine-reject")
 			w.ImplOnly(c.id, "engine-reject "+short(c.script, 200)+" :: "+errStr(c.res.createErr))
@@ -106,7 +130,7 @@ func runCases(w *out.W, cases []*loopCase) {
 		}
 		vs := append(c.res.verdict(), c.truth...)
 		w.ImplOnly(c.id, fmt.Sprintf("%s tables=%d viol=%d %s", c.how, c.res.nTables, len(vs), short(c.script, 300)))
-		w.NonTrivial(c.how + "|" + tags)
+		w.NonTrivial(c.how + "|" + c.history + "|" + tags)
 		seen := map[string]bool{}
 		var syms []string
 		for _, v := range vs {
@@ -127,7 +151,7 @@ func runCases(w *out.W, cases []*loopCase) {
 				cz = "corpus"
 			}
 			w.Count("viol:" + cz + "/" + v.class)
-			w.Violation(c.id, cz, fmt.Sprintf("symptom=%s how=%s %s ;; sql=%s", v.class, c.how, short(v.msg, 500), short(c.script, 700)))
+			w.Violation(c.id, cz, fmt.Sprintf("symptom=%s how=%s history=%s %s ;; sql=%s", v.class, c.how, c.history, short(v.msg, 500), short(c.script, 700)))
 		}
 	}
 }
@@ -157,8 +181,14 @@ func runLoop(w *out.W, tier string) {
 		} else {
 			o.wild = i%6 == 3
 		}
+		hist := histories[(i/2)%len(histories)]
 		a := genSchemaAST(r, o)
-		c := &loopCase{id: fmt.Sprintf("g%05d", i), how: how, ast: a}
+		if hist == "autoinc-rows-analyze" {
+			for try := 0; try < 40 && !a.Tags["autoinc"]; try++ {
+				a = genSchemaAST(r, o)
+			}
+		}
+		c := &loopCase{id: fmt.Sprintf("g%05d", i), how: how, ast: a, history: hist}
 		c.styleSeed = r.U64()
 		st := newStyle(rng.New(c.styleSeed), a)
 		c.script = strings.Join(st.script(a), ";\n") + ";"
